@@ -486,17 +486,13 @@ func (p *Prog) Anchors() map[string]string {
 	return out
 }
 
+func (p *Prog) anchorTable() map[string]string {
+	p.loadAnchors()
+	return p.anchorTab
+}
+
 func (p *Prog) funcByFingerprint(rel, name string) *types.Func {
-	p.anchorOnce.Do(func() {
-		p.anchorTab = map[string]string{}
-		dir := os.Getenv("VERIF_DIR")
-		if dir == "" {
-			dir = "/verif"
-		}
-		if b, err := os.ReadFile(filepath.Join(dir, "anchors.json")); err == nil {
-			_ = json.Unmarshal(b, &p.anchorTab)
-		}
-	})
+	p.loadAnchors()
 	want, ok := p.anchorTab[rel+" "+name]
 	if !ok {
 		return nil
@@ -523,4 +519,17 @@ func (p *Prog) funcByFingerprint(rel, name string) *types.Func {
 		return found[0]
 	}
 	return nil
+}
+
+func (p *Prog) loadAnchors() {
+	p.anchorOnce.Do(func() {
+		p.anchorTab = map[string]string{}
+		dir := os.Getenv("VERIF_DIR")
+		if dir == "" {
+			dir = "/verif"
+		}
+		if b, err := os.ReadFile(filepath.Join(dir, "anchors.json")); err == nil {
+			_ = json.Unmarshal(b, &p.anchorTab)
+		}
+	})
 }
